@@ -1693,7 +1693,8 @@ def select__namespace_node_kind_test(self: XPathFunction, context: ta.ContextTyp
         yield context.item
     elif isinstance(context, XPathSchemaContext):
         return  # deprecated for XP20+ and not needed for schema analysis
-    elif isinstance(context.item, ElementNode):
+    elif context.axis is None and isinstance(context.item, ElementNode):
+        # Abbreviated step: the default axis of a NamespaceNodeTest is the namespace axis
         elem = context.item
         for context.item in elem.namespace_nodes:
             yield context.item  # noqa
